@@ -26,10 +26,13 @@ struct FileDesc {
     masks: Vec<u8>,
     omit: u8,
     streams: bool,
+    /// containers additionally hold a stale second copy of the designated objects they store
+    /// (the same number twice inside one object stream)
+    dup_within: bool,
 }
 
 fn desc_json(d: &FileDesc) -> Value {
-    json!({"masks": d.masks, "omit": d.omit, "streams": d.streams})
+    json!({"masks": d.masks, "omit": d.omit, "streams": d.streams, "dup_within": d.dup_within})
 }
 
 fn desc_from(v: &Value) -> FileDesc {
@@ -37,6 +40,7 @@ fn desc_from(v: &Value) -> FileDesc {
         masks: v["masks"].as_array().unwrap().iter().map(|x| x.as_u64().unwrap() as u8).collect(),
         omit: v["omit"].as_u64().unwrap() as u8,
         streams: v["streams"].as_bool().unwrap(),
+        dup_within: v["dup_within"].as_bool().unwrap_or(false),
     }
 }
 
@@ -65,9 +69,21 @@ fn build(d: &FileDesc) -> Vec<u8> {
                 );
             }
         }
+        let mut extra: Vec<(u32, Object)> = vec![];
+        if d.dup_within {
+            for (b, n) in DESIGNATED.iter().enumerate() {
+                if m & (1 << b) != 0 {
+                    extra.push((*n, Object::Dictionary(dict(vec![("Obj", Object::Integer(*n as i64)), ("StaleInContainer", Object::Integer(j as i64))]))));
+                }
+            }
+            // padding members so that work splitting inside the container has something to split
+            for q in 0..6u32 {
+                extra.push((60 + q, Object::Integer(q as i64)));
+            }
+        }
         // a per-container marker object keeps every container non-empty and distinguishable
         o.insert((20 + j as u32, 0), Object::Array(vec![Object::Integer(j as i64)]));
-        sections.push(Section { objects: o, trailer: trailer.clone(), objstm: Some(1), omit_xref: omit.clone() });
+        sections.push(Section { objects: o, trailer: trailer.clone(), objstm: Some(1), omit_xref: omit.clone(), extra_members: extra });
     }
     let spec = FileSpec { version: "1.7".into(), mark: vec![0xe2, 0xe3, 0xcf, 0xd3], style: Style::Stream, sections, helper_base: Some(100) };
     let mut ch = if d.streams { Chooser::with_classes(&[("stream.length", 3)]) } else { Chooser::new() };
@@ -88,7 +104,10 @@ fn files(thorough: bool) -> Vec<FileDesc> {
                 x /= 7;
             }
             for omit in [0u8, 1] {
-                v.push(FileDesc { masks: masks.clone(), omit, streams: (i + k) % 3 == 0 });
+                v.push(FileDesc { masks: masks.clone(), omit, streams: (i + k) % 3 == 0, dup_within: false });
+                if k <= 2 {
+                    v.push(FileDesc { masks: masks.clone(), omit, streams: false, dup_within: true });
+                }
             }
         }
     }
@@ -103,7 +122,7 @@ fn files(thorough: bool) -> Vec<FileDesc> {
                 masks.push([1u8, 3, 7][x % 3]);
                 x /= 3;
             }
-            v.push(FileDesc { masks: masks.clone(), omit: if i % 2 == 0 { 0 } else { 5 }, streams: i % 4 == 0 });
+            v.push(FileDesc { masks: masks.clone(), omit: if i % 2 == 0 { 0 } else { 5 }, streams: i % 4 == 0, dup_within: i % 5 == 0 });
         }
     }
     v
